@@ -264,9 +264,47 @@ func genNumSet(t *rapid.T, label string, allowSearchRes bool) imap.NumSet {
 func genFlags(t *rapid.T, label string, min int) []imap.Flag {
 	var fl []imap.Flag
 	for i, n := 0, rapid.IntRange(min, 3).Draw(t, label+".n"); i < n; i++ {
+		if rapid.IntRange(0, 5).Draw(t, label+".lookalike") == 0 {
+			// keywords spelled like a system flag, without the backslash
+			fl = append(fl, imap.Flag(rapid.SampledFrom([]string{"Seen", "deleted", "ANSWERED", "Flagged", "draft", "Recent"}).Draw(t, label+".kw")))
+			continue
+		}
 		fl = append(fl, imap.Flag(gen.ValidFlag(t, label)))
 	}
 	return fl
+}
+
+// genSparseCriteria: one to three keys only (the operands of NOT and OR that
+// invite "simplifications": a single flag, a flag and a size, a date range...).
+func genSparseCriteria(t *rapid.T) imap.SearchCriteria {
+	var c imap.SearchCriteria
+	for i, n := 0, rapid.IntRange(1, 3).Draw(t, "sparse.n"); i < n; i++ {
+		switch rapid.SampledFrom([]string{"flag", "flag", "notflag", "larger", "smaller", "since", "before", "body", "uid", "seq", "header"}).Draw(t, "sparse.key") {
+		case "flag":
+			c.Flag = append(c.Flag, imap.Flag(rapid.SampledFrom([]string{"\\Seen", "\\Deleted", "\\Answered", "\\Flagged", "\\Draft", "$Junk", "kw", "Seen"}).Draw(t, "sparse.flag")))
+		case "notflag":
+			c.NotFlag = append(c.NotFlag, imap.Flag(rapid.SampledFrom([]string{"\\Seen", "\\Deleted", "\\Flagged", "kw", "deleted"}).Draw(t, "sparse.notflag")))
+		case "larger":
+			c.Larger = rapid.SampledFrom([]int64{1, 100, 4096}).Draw(t, "sparse.larger")
+		case "smaller":
+			c.Smaller = rapid.SampledFrom([]int64{1, 100, 4096}).Draw(t, "sparse.smaller")
+		case "since":
+			c.Since = genTime(t, "sparse.since")
+		case "before":
+			c.Before = genTime(t, "sparse.before")
+		case "body":
+			c.Body = append(c.Body, genStr(t, "sparse.body"))
+		case "uid":
+			var u imap.UIDSet
+			u.AddNum(imap.UID(rapid.IntRange(1, 9).Draw(t, "sparse.uid")))
+			c.UID = append(c.UID, u)
+		case "seq":
+			c.SeqNum = append(c.SeqNum, genSeqSet(t, "sparse.seq"))
+		case "header":
+			c.Header = append(c.Header, imap.SearchCriteriaHeaderField{Key: "Subject", Value: genStr(t, "sparse.hval")})
+		}
+	}
+	return c
 }
 
 var zones = []*time.Location{time.UTC, time.FixedZone("", 5*3600+1800), time.FixedZone("", -8*3600), time.FixedZone("", 14*3600), time.FixedZone("PDT", -7*3600), time.FixedZone("CEST", 2*3600)}
@@ -284,6 +322,16 @@ func some(t *rapid.T, label string) bool {
 
 func genCriteria(t *rapid.T, depth int) imap.SearchCriteria {
 	var c imap.SearchCriteria
+	if rapid.IntRange(0, 3).Draw(t, "sparse?") == 0 {
+		c = genSparseCriteria(t)
+		if depth > 0 && rapid.Bool().Draw(t, "sparse.nest") {
+			c.Not = append(c.Not, genSparseCriteria(t))
+			if rapid.Bool().Draw(t, "sparse.or") {
+				c.Or = append(c.Or, [2]imap.SearchCriteria{genSparseCriteria(t), genSparseCriteria(t)})
+			}
+		}
+		return c
+	}
 	if some(t, "seq") {
 		for i, n := 0, rapid.IntRange(1, 2).Draw(t, "nseq"); i < n; i++ {
 			c.SeqNum = append(c.SeqNum, genSeqSet(t, "cseq"))
